@@ -55,7 +55,11 @@ fn get_set_cached<T: Clone>(
     key: &std::path::Path,
     value_func: impl FnOnce() -> T,
 ) -> T {
-    let mut lock = cache.lock().expect("cache is poisoned");
+    // A loader that panicked (missing or unparsable file) poisons the mutex, but it cannot leave the map
+    // in an inconsistent state: the entry is only inserted after the loader returned. Keep serving.
+    let mut lock = cache
+        .lock()
+        .unwrap_or_else(|poisoned| poisoned.into_inner());
     lock.entry(key.into()).or_insert_with(value_func).clone()
 }
 
